@@ -199,7 +199,8 @@ def run(tier, seed, replay=None):
     ]
     tm = {}
     t0 = time.time()
-    R.check_proofs(PROOF_FILES)
+    R.check_proofs(PROOF_FILES, build_targets=["theories/Props/C07.vo", "theories/Checker/Pen.vo", "theories/Checker/Deep.vo",
+                                               "theories/Checker/Narrow.vo"])
     tm['proofs'] = round(time.time() - t0, 1)
     t0 = time.time()
     cases = []
@@ -212,9 +213,7 @@ def run(tier, seed, replay=None):
                 cases.append(json.loads(f.read_text())["case"])
         n = 260 if tier == "quick" else 2400
         seeds = [(R.rng.getrandbits(64), tier, k) for k in range(n)]
-        import multiprocessing as mp
-        with mp.get_context("fork").Pool(cm.NCPU) as pool:
-            cases += pool.map(make_case_seeded, seeds, chunksize=4)
+        cases += npn.par_map(PID, "c07", "make_case_seeded", seeds, tag="gen")
     for c in cases:
         c.pop("result", None)
     tm['generate'] = round(time.time() - t0, 1)
@@ -286,9 +285,11 @@ def run(tier, seed, replay=None):
 
     # float oracles + witness builders, in parallel
     t0 = time.time()
-    import multiprocessing as mp
-    with mp.get_context("fork").Pool(min(cm.NCPU, max(1, len(to_judge)))) as pool:
-        prepared = pool.map(prepare, to_judge, chunksize=4) if to_judge else []
+    try:
+        prepared = npn.par_map(PID, "c07", "prepare", to_judge)
+    except RuntimeError as e:
+        R.corr_broken.append(str(e)[:400])
+        prepared = []
     judged = {}
     exprs, slots = [], []
     for pz in prepared:
@@ -392,6 +393,12 @@ def run(tier, seed, replay=None):
             extra = " [result obtained with enlarged capacities after the default run hit max_faces]" if i in big else ""
             R.failure("; ".join(problems) + extra, dict(c, result=big.get(i, r)), site="epa.epa")
     known = {e["id"]: e for e in R.known}
+    for e in R.known:          # tolerate other ids: match the entries by their call site
+        site = e.get("site", "")
+        if "extend_with_point" in site:
+            known.setdefault("F19", e)
+        if "_initialize_from_simplex" in site:
+            known.setdefault("F21", e)
     if f2_cases:
         if "F2" in known:
             R.known_finding("F2", f"{F2_WHAT}; {len(f2_cases)} of {len(cases)} cases this run, e.g. {f2_cases[0][1][:160]}")
